@@ -769,6 +769,15 @@ func (f *transformationCallable) updateEntries(item reflect.Value) error {
 		return newEvalError(ErrIllegalUpdate, f.updates, nil)
 	}
 
+	// Insert a copy of the updates. The update expression can
+	// refer to the object it is applied to (e.g. {"b": $}).
+	// Inserting those values as they are would make the object
+	// contain itself.
+	updates, err = f.clone(updates)
+	if err != nil {
+		return newEvalError(ErrClone, nil, nil)
+	}
+
 	// The map may be wrapped in an interface (e.g. when it
 	// is an element of an array).
 	updates = jtypes.Resolve(updates)
